@@ -25,6 +25,7 @@ RULE = ("2..4 tasks issue 1..3 operations each (call key, cache_clear, cache_dis
         "one evaluation = one executed schedule; distinct = (scenario, schedule trace)")
 ASSUMPTIONS = ["cache contents during concurrency are not pinned, only constrained existentially at quiescence",
                "the OrderedDict LRU model is the one cross-validated against functools.lru_cache by C10"]
+EXHAUSTIVE_SUBSPACES = 'every scenario counted in scenarios_explored_exhaustively had ALL its interleavings executed'
 EXHAUSTIVE = {"quick": False, "thorough": False}
 N_SCEN = {"quick": 1200, "thorough": 40000}
 DFS_LIMIT = {"quick": 1200, "thorough": 30000}
